@@ -89,6 +89,35 @@ def nest_args(k, a):
     return out
 
 
+def load_replay(ctx):
+    """the spec cases recorded in a replay artefact (evidence/replays/*.ndjson), or None"""
+    if not ctx.replay:
+        return None
+    out = []
+    for line in open(ctx.replay):
+        line = line.strip()
+        if line:
+            rec = json.loads(line)
+            if "case" in rec:
+                out.append(rec["case"])
+    if not out:
+        raise Broken("nothing to replay in %s" % ctx.replay)
+    return out
+
+
+def finish(ctx):
+    """ctx.finish, except that a --replay run must not replace the evidence of the last full run"""
+    if not ctx.replay:
+        return finish(ctx)
+    ev = os.path.join(VERIF, "evidence", ctx.pid + ".json")
+    old = open(ev).read() if os.path.exists(ev) else None
+    rc = ctx.finish(exhaustive=False)
+    if old is not None:
+        with open(ev, "w") as f:
+            f.write(old)
+    return rc
+
+
 def kkey(k):
     return json.dumps(k, sort_keys=True)
 
@@ -216,19 +245,24 @@ def run(ctx):
     thorough = ctx.tier == "thorough"
     W_LO, W_HI = -24, 24           # recording window; everything else lands in two overflow cells
     NCELL = W_HI - W_LO + 1 + 2
-    # 1. design run + vacuity
-    if not os.environ.get("C17_DEV_SKIP_DESIGN"):      # development aid only
-        r = ctx.tlc("mc/MC_OklLoops.tla", "mc/OklLoops_design.cfg", workers=4, coverage=True, timeout=1200)
-        ctx.tlc_must_pass(r, "OklLoops design")
-        ctx.require_coverage(r, ["Init", "Test", "Body"])
-    # 2. behaviours: one record per (kernel shape, argument values) with the sequential visits
-    cfg = "mc/OklLoops_gen_thorough.cfg" if thorough else "mc/OklLoops_gen_quick.cfg"
-    g = ctx.tlc("mc/MC_OklLoops.tla", cfg, workers=1, timeout=2400)
-    if g.rc != 0:
-        raise Broken("generation failed (%s): rc=%s violated=%s\n%s" % (cfg, g.rc, g.violated, g.out[-2500:]))
-    cases = b_json(g)
-    if not cases:
-        raise Broken("no behaviours generated by %s" % cfg)
+    replayed = load_replay(ctx)
+    if replayed is not None:
+        # ./check C17 --replay <file>: re-execute the recorded spec cases (all backends) and judge them again
+        cases = [c for c in replayed if not c.get("nest")]
+    else:
+        # 1. design run + vacuity
+        if not os.environ.get("C17_DEV_SKIP_DESIGN"):      # development aid only
+            r = ctx.tlc("mc/MC_OklLoops.tla", "mc/OklLoops_design.cfg", workers=4, coverage=True, timeout=1200)
+            ctx.tlc_must_pass(r, "OklLoops design")
+            ctx.require_coverage(r, ["Init", "Test", "Body"])
+        # 2. behaviours: one record per (kernel shape, argument values) with the sequential visits
+        cfg = "mc/OklLoops_gen_thorough.cfg" if thorough else "mc/OklLoops_gen_quick.cfg"
+        g = ctx.tlc("mc/MC_OklLoops.tla", cfg, workers=1, timeout=2400)
+        if g.rc != 0:
+            raise Broken("generation failed (%s): rc=%s violated=%s\n%s" % (cfg, g.rc, g.violated, g.out[-2500:]))
+        cases = b_json(g)
+        if not cases:
+            raise Broken("no behaviours generated by %s" % cfg)
     bykernel = collections.OrderedDict()
     for c in cases:
         bykernel.setdefault(kkey(c["k"]), []).append(c)
@@ -253,12 +287,15 @@ def run(ctx):
         batches.append(Batch("c17b%d" % (b0 // BATCH), text, ks))
         index.append(idx)
     # 3b. nests: several @outer / @inner loops around one body (dimension mapping)
-    gn = ctx.tlc("mc/MC_OklNest.tla", "mc/OklNest_gen_%s.cfg" % ("thorough" if thorough else "quick"), workers=1, timeout=2400)
-    if gn.rc != 0:
-        raise Broken("nest generation failed: rc=%s violated=%s\n%s" % (gn.rc, gn.violated, gn.out[-2500:]))
-    ncases = b_json(gn)
-    if not ncases:
-        raise Broken("no nest behaviours generated")
+    if replayed is not None:
+        ncases = [c for c in replayed if c.get("nest")]
+    else:
+        gn = ctx.tlc("mc/MC_OklNest.tla", "mc/OklNest_gen_%s.cfg" % ("thorough" if thorough else "quick"), workers=1, timeout=2400)
+        if gn.rc != 0:
+            raise Broken("nest generation failed: rc=%s violated=%s\n%s" % (gn.rc, gn.violated, gn.out[-2500:]))
+        ncases = b_json(gn)
+        if not ncases:
+            raise Broken("no nest behaviours generated")
     bynest = collections.OrderedDict()
     for c in ncases:
         c["nest"] = True
@@ -270,10 +307,11 @@ def run(ctx):
         text += render_nest("n%d" % j, k) + "\n"
         ks.append({"name": "n%d" % j, "runs": [nest_args(k, c["a"]) + [{"t": "int*", "n": NW ** len(k["loops"])}] for c in cs]})
         idx.append(cs)
-    batches.append(Batch("c17nest", text, ks))
-    index.append(idx)
+    if ks:
+        batches.append(Batch("c17nest", text, ks))
+        index.append(idx)
     # 4. translate / build / run
-    res = oklrun_lib.execute(ctx, batches, MODES, fanout=(8 if thorough else 4), build_workers=(8 if thorough else 4),
+    res = oklrun_lib.execute(ctx, batches, MODES, fanout=(8 if thorough else 4), build_workers=(8 if thorough else 4), timeout=(7200 if thorough else 1800),
                               asan_batches=(4 if thorough else 1))
     # 5. compare with the spec
     def decode(idx_, c):
@@ -311,7 +349,8 @@ def run(ctx):
     stats = judge(ctx, res, batches, index, want_of, decode, sig_of, describe,
                   lambda c: render_nest("n", c["k"]) if c.get("nest") else render_kernel("k", c["k"]))
     ctx.traces_validated = stats["runs"]
-    ctx.samples = [{"kernel": render_header(c["k"], "i"), "pos": c["k"]["pos"], "args": c["a"], "spec_visits": c["exp"]}
+    cases = cases or ncases
+    ctx.samples = [{"kernel": render_header(c["k"], "i") if "h" in c else "(nest)", "pos": c["k"].get("pos", "nest"), "args": c["a"], "spec_visits": c["exp"][:12]}
                    for c in ([c for c in cases if c["exp"]] or cases)[::max(1, len([c for c in cases if c["exp"]] or cases) // 4)][:4]]
     ctx.cov.update({"kernel_shapes": len(kernels) + len(bynest), "spec_runs": len(cases) + len(ncases), "nest_runs": len(ncases), "backends": len(MODES),
                     "backend_runs_compared": stats["runs"], "conforming": stats["conform"],
@@ -324,4 +363,4 @@ def run(ctx):
         "operand values within -10..10, loops of at most 9 iterations, steps 1..3; int (and long in the thorough tier) iterators",
         "one loop under test per kernel, the other OKL loop has one iteration; run-time arguments are ints",
         "a sample of the batches is additionally translated under ASan+UBSan (see notes); Serial/OpenMP kernels are built by the real JIT with -O0"]
-    return ctx.finish(exhaustive=False)
+    return finish(ctx)
